@@ -15,6 +15,8 @@ theorem Ext.of_trace_eq {a b c : St} (h1 : Ext a b) (h : c.trace = b.trace) : Ex
 @[simp] theorem trace_bumpId (σ : St) : (bumpId σ).trace = σ.trace := rfl
 @[simp] theorem trace_setFun (σ : St) (n i) : (setFun σ n i).trace = σ.trace := rfl
 @[simp] theorem trace_setLock (σ : St) (i b) : (setLock σ i b).trace = σ.trace := rfl
+@[simp] theorem trace_addStream (σ : St) : (addStream σ).trace = σ.trace := rfl
+@[simp] theorem trace_closeStream (σ : St) (i) : (closeStream σ i).trace = σ.trace := rfl
 @[simp] theorem trace_setInFrame (σ : St) (f x v) : (setInFrame σ f x v).trace = σ.trace := rfl
 @[simp] theorem trace_setGlobal (σ : St) (x v) : (setGlobal σ x v).trace = σ.trace := by
   unfold setGlobal; split <;> rfl
@@ -32,6 +34,8 @@ theorem ext_addClosure (a σ : St) (c) : Ext a (addClosure σ c) = Ext a σ := E
 theorem ext_bumpId (a σ : St) : Ext a (bumpId σ) = Ext a σ := Ext.congr (by simp)
 theorem ext_setFun (a σ : St) (n i) : Ext a (setFun σ n i) = Ext a σ := Ext.congr (by simp)
 theorem ext_setLock (a σ : St) (i b) : Ext a (setLock σ i b) = Ext a σ := Ext.congr (by simp)
+theorem ext_addStream (a σ : St) : Ext a (addStream σ) = Ext a σ := Ext.congr (by simp)
+theorem ext_closeStream (a σ : St) (i) : Ext a (closeStream σ i) = Ext a σ := Ext.congr (by simp)
 theorem ext_setInFrame (a σ : St) (f x v) : Ext a (setInFrame σ f x v) = Ext a σ := Ext.congr (by simp)
 theorem ext_setVar (a σ : St) (ρ x v) : Ext a (setVar σ ρ x v) = Ext a σ := Ext.congr (by simp)
 theorem ext_assignAll (a σ : St) (ρ xs vs) : Ext a (assignAll σ ρ xs vs) = Ext a σ := Ext.congr (by simp)
@@ -79,7 +83,7 @@ macro_rules
   | `(tactic| ext_leaf) => `(tactic| first
       | assumption
       | exact Ext.refl _
-      | (simp only [ext_addFrame, ext_addClosure, ext_bumpId, ext_setFun, ext_setLock, ext_setInFrame, ext_setVar,
+      | (simp only [ext_addFrame, ext_addClosure, ext_bumpId, ext_setFun, ext_setLock, ext_setInFrame, ext_setVar, ext_addStream, ext_closeStream,
           ext_assignAll]
          first | assumption | exact Ext.refl _))
 
